@@ -77,11 +77,13 @@ func (de *DepthExecutor) getVariables(req *ExecutionRequest) (map[string]interfa
 
 	// we need to grab the variable definitions and values for each variable in the step
 	for _, variable := range req.QueryPlanStep.VariablesList {
-		if de.ctx.Request.Variables == nil {
-			break
-		}
 		// and the value if it exists
 		if value, ok := de.ctx.Request.Variables[variable]; ok {
+			variables[variable] = value
+			continue
+		}
+		// otherwise the default the client declared for it
+		if value, ok := req.QueryPlanStep.VariableDefaults[variable]; ok {
 			variables[variable] = value
 		}
 	}
